@@ -52,4 +52,29 @@ theorem cmp_literals_are_source :
     cmpMarkerGen = cmpMarker ∧ cmpOverflowAtGen = 256 ∧ cmpJAfterOverflowGen = 255 ∧ cmpOverflowAtGen = cmpMarker + 1 := by
   decide
 
+/-- **The search loop of find_func_entry is the source's.**  One iteration of the model's `inhSearch` (the subject of
+    `inhSearch_spec` and, through it, of `find_func_entry_compress`) is exactly one iteration of the loop REGENERATED from
+    the clang AST of find_func_entry: same loop condition, same `mid`, same comparison, same assignments to first / last,
+    and NO early exit.  A changed comparison, a swapped assignment or a new `break` makes this lemma fail. -/
+theorem inhSearch_is_source (inh : List Inherit) (index fuel first last : Nat) :
+    inhSearch inh index (fuel + 1) first last =
+      (if ffeCondGen first last then
+        match inh[ffeMidGen first last]? with
+        | none => none
+        | some ih =>
+          if (ffeStepGen first last (ffeMidGen first last) ih.fio index).2.2 then
+            some (ffeStepGen first last (ffeMidGen first last) ih.fio index).1
+          else inhSearch inh index fuel (ffeStepGen first last (ffeMidGen first last) ih.fio index).1
+                 (ffeStepGen first last (ffeMidGen first last) ih.fio index).2.1
+       else some first) := by
+  rw [inhSearch]
+  simp only [ffeCondGen, ffeMidGen, ffeStepGen, decide_eq_true_eq]
+  split
+  · cases inh[(last + first + 1) / 2]? with
+    | none => rfl
+    | some ih =>
+      simp only
+      split <;> simp
+  · rfl
+
 end NV.C07
